@@ -1,33 +1,28 @@
 /-
   C07 — sequence-number translation between a client's view and the mailbox.
-  Property theorems only.
+  Property theorems only; definitions (`Inv`, `SessInv`, `SessRel`, `appended`, `dueOf`, `run`, `grun`,
+  `updIds`, the demo states) and helper lemmas live in GoImap/Lemmas/Tracker{Basic,Loops,Inv,Step,Ids}.lean.
+
+  Status: all seven targets proved, nothing partial.
+    1/2  inv_init, inv_step, inv_reachable, poll_prefix, poll_expected, inv_pending_ids_lt
+    3    decode_spec (+ decode_eq_zero_iff, decode_table)
+    4    encode_spec (+ encode_eq_zero_iff, encode_table)
+    5    roundtrip, roundtrip_symm
+    6    fetch_target, fetch_target_queued, noop_sync
+    7    legacy_encode_spec_counterexample, legacy_encode_spec_false
+  Unfinished targets: none.
 -/
 import GoImap.Model.Tracker
 import GoImap.Spec.Tracker
+import GoImap.Lemmas.TrackerLoops
+import GoImap.Lemmas.TrackerStep
+import GoImap.Lemmas.TrackerIds
 namespace GoImap.C07
-open GoImap.Tracker GoImap.TrackerSpec
+open GoImap.Tracker GoImap.TrackerSpec GoImap.TrackerLemmas
 
 /-- translating 0 yields 0 on both sides, whatever is queued -/
 theorem decode_zero (q : List Upd) (n : Nat) : decode q n 0 = 0 := by simp [decode]
 theorem encode_zero (q : List Upd) (n : Nat) : encode q n 0 = 0 := by simp [encode]
-
-theorem takeWhile_all {α} (p : α → Bool) : (l : List α) → ∀ x ∈ l.takeWhile p, p x = true
-  | [], x, h => by simp at h
-  | a :: l, x, h => by
-    simp only [List.takeWhile] at h
-    split at h
-    · rcases List.mem_cons.mp h with rfl | h'
-      · assumption
-      · exact takeWhile_all p l x h'
-    · simp at h
-
-theorem takeWhile_drop {α} (p : α → Bool) : (l : List α) → l.takeWhile p ++ l.drop (l.takeWhile p).length = l
-  | [] => by simp
-  | a :: l => by
-    simp only [List.takeWhile]
-    split
-    · simp [takeWhile_drop p l]
-    · simp
 
 /-- a poll that may not report expunges emits none and keeps the rest queued in order -/
 theorem poll_no_expunge (q : List Upd) :
@@ -49,5 +44,319 @@ theorem poll_all (q : List Upd) : pollSplit q true = (q, []) := by simp [pollSpl
     was translated to 3 -/
 theorem legacy_encode_counterexample :
     Legacy.encode [.exists_ 2 5] 5 3 = 3 ∧ encode [.exists_ 2 5] 5 3 = 0 := by decide
+
+/-! ## 1/2 — the correspondence invariant
+
+`Inv st g` (GoImap/Lemmas/TrackerInv.lean):
+  * `st.n = g.mbox.length`, `g.mbox.Nodup`, every id of `g.mbox` is `< g.next`;
+  * `SessRel (SessInv g.mbox g.next) st.sess g.sess`: same sessions in the same order, and for each
+    pair `s.id = gs.id`, `deliverAll gs.view gs.pending = some (s.queue, g.mbox)` (the concrete queue is
+    exactly what the pending ghost updates deliver from the view, and applying them to the view
+    yields the mailbox), `(gs.view ++ appended gs.pending).Nodup`, all those ids `< g.next`. -/
+
+/-- a fresh tracker corresponds to the fresh ghost mailbox -/
+theorem inv_init (n : Nat) : Inv (init n) (ginit n) := TrackerLemmas.inv_init n
+
+/-- every ghost-valid call is accepted by the tracker (no panic), emits exactly the updates the
+    ghost session is owed, and keeps the correspondence -/
+theorem inv_step {st : St} {g : GSt} (h : Inv st g) (op : Op) {g' : GSt} {outG : List Upd}
+    (hg : gstep g op = some (g', outG)) :
+    ∃ st', step st op = some (st', outG) ∧ Inv st' g' := TrackerLemmas.inv_step h op hg
+
+example : ∃ st', step demoSt (.expunge 4) = some (st', []) ∧
+    Inv st' ⟨[0, 2, 3], 5, [⟨1, [0, 1], [.exists_ [2, 3, 4], .expunge 1, .expunge 4]⟩]⟩ :=
+  inv_step demo_inv (.expunge 4) rfl
+
+/-- along any history of ghost-valid calls from a fresh tracker, the tracker never panics, every
+    call emits exactly the ghost's expected updates, and the correspondence holds at the end -/
+theorem inv_reachable (n : Nat) (ops : List Op) {g' : GSt} {outs : List (List Upd)}
+    (hg : grun (ginit n) ops = some (g', outs)) :
+    ∃ st', run (init n) ops = some (st', outs) ∧ Inv st' g' :=
+  inv_run ops (TrackerLemmas.inv_init n) hg
+
+example : ∃ st', run (init 2) demo2Ops = some (st', [[], [], [], [], [], [], [.exists_ 2 5]]) ∧
+    Inv st' demo2G := inv_reachable 2 demo2Ops demo2_grun
+
+/-- what a poll emits is a prefix of the session's queue, in order, the rest stays queued; without
+    permission to report expunges none is emitted; with permission the whole queue is -/
+theorem poll_prefix {st st' : St} {id : Nat} {allow : Bool} {out : List Upd} {s : Sess}
+    (hs : st.sess.find? (·.id = id) = some s)
+    (hstep : step st (.poll id allow) = some (st', out)) :
+    ∃ rest, s.queue = out ++ rest ∧
+      (allow = false → ∀ u ∈ out, ∀ k, u ≠ .expunge k) ∧
+      (allow = true → rest = []) ∧
+      (∀ s' ∈ st'.sess, s'.id = id → s'.queue = rest) ∧ st'.n = st.n := by
+  simp only [step, hs, Option.some.injEq, Prod.mk.injEq] at hstep
+  obtain ⟨rfl, rfl⟩ := hstep
+  refine ⟨(pollSplit s.queue allow).2, ?_, ?_, ?_, ?_, rfl⟩
+  · cases allow
+    · exact (poll_no_expunge s.queue).2.symm
+    · simp [poll_all]
+  · intro ha; subst ha; exact (poll_no_expunge s.queue).1
+  · intro ha; subst ha; simp [poll_all]
+  · intro s' hs' hid
+    simp only [List.mem_map] at hs'
+    obtain ⟨x, _, rfl⟩ := hs'
+    by_cases hx : x.id = id
+    · simp [hx]
+    · rw [if_neg hx] at hid; exact absurd hid hx
+
+example : demoSt.sess.find? (·.id = 1) = some ⟨1, [.exists_ 2 5, .expunge 2]⟩ ∧
+    step demoSt (.poll 1 false) = some (⟨4, [⟨1, [.expunge 2]⟩]⟩, [.exists_ 2 5]) := ⟨rfl, rfl⟩
+
+/-- the updates a poll emits are the delivery, in the numbering of the session's current view, of
+    the pending ghost updates that are due (all of them, or those before the first expunge) -/
+theorem poll_expected {st : St} {g g' : GSt} (h : Inv st g) {id : Nat} {allow : Bool}
+    {out : List Upd} {gs : GSess} (hgs : g.sess.find? (·.id = id) = some gs)
+    (hg : gstep g (.poll id allow) = some (g', out)) :
+    ∃ st' v', step st (.poll id allow) = some (st', out) ∧
+      deliverAll gs.view (dueOf gs.pending allow) = some (out, v') := by
+  obtain ⟨st', hst, _⟩ := TrackerLemmas.inv_step h _ hg
+  simp only [gstep, hgs] at hg
+  simp only [dueOf]
+  split at hg
+  · cases hg
+  · rename_i o v' hd
+    simp only [Option.some.injEq, Prod.mk.injEq] at hg
+    exact ⟨st', v', hst, by rw [hd, hg.2]⟩
+
+example : ∃ st' v', step demoSt (.poll 1 false) = some (st', [.exists_ 2 5]) ∧
+    deliverAll [0, 1] (dueOf [.exists_ [2, 3, 4], .expunge 1] false) = some ([.exists_ 2 5], v') :=
+  poll_expected demo_inv (id := 1) (gs := ⟨1, [0, 1], [.exists_ [2, 3, 4], .expunge 1]⟩) rfl rfl
+
+/-- every identity in a session's view or named by one of its pending updates (expunged, flagged,
+    appended) has been handed out already -/
+theorem inv_pending_ids_lt {st : St} {g : GSt} (h : Inv st g) {gs : GSess} (hgs : gs ∈ g.sess) :
+    (∀ x : Nat, x ∈ gs.view → x < g.next) ∧
+    ∀ u ∈ gs.pending, ∀ x : Nat, x ∈ updIds u → x < g.next := by
+  obtain ⟨s, _, _, hdel, _, hlt⟩ := h.sess.of_mem_right hgs
+  exact ⟨fun x hx => hlt x (List.mem_append_left _ hx),
+    fun u hu x hx => hlt x (deliverAll_ids _ hdel u hu x hx)⟩
+
+example : (⟨1, [0, 1, 2, 3, 4], [.expunge 1, .fetch 3, .expunge 0]⟩ : GSess) ∈ demo2G.sess :=
+  List.mem_cons_self
+
+/-! ## 3 — DecodeSeqNum -/
+
+/-- client number `c` of a session is translated to the server number of the same message,
+    0 when that message is gone -/
+theorem decode_spec {st : St} {g : GSt} (h : Inv st g) {i : Nat} {s : Sess} {gs : GSess}
+    (hs : st.sess[i]? = some s) (hgs : g.sess[i]? = some gs) {c : Nat}
+    (h1 : 1 ≤ c) (h2 : c ≤ gs.view.length) :
+    decode s.queue st.n c = posOf (gs.view[c - 1]'(by omega)) g.mbox := by
+  obtain ⟨_, hdel, hnd, _⟩ := h.sess.getElem? i hs hgs
+  rw [h.count]
+  exact decode_deliverAll hdel hnd h1 h2
+
+example : decode [.exists_ 2 5, .expunge 2] 4 1 = posOf 0 [0, 2, 3, 4] :=
+  decode_spec demo_inv (i := 0) rfl rfl (c := 1) (by decide) (by decide)
+example : decode [.expunge 2, .fetch 3, .expunge 1] 3 4 = posOf 3 [2, 3, 4] :=
+  decode_spec demo2_inv (i := 0) rfl rfl (c := 4) (by decide) (by decide)
+
+/-- the translation is 0 exactly when the message is no longer in the mailbox -/
+theorem decode_eq_zero_iff {st : St} {g : GSt} (h : Inv st g) {i : Nat} {s : Sess} {gs : GSess}
+    (hs : st.sess[i]? = some s) (hgs : g.sess[i]? = some gs) {c : Nat}
+    (h1 : 1 ≤ c) (h2 : c ≤ gs.view.length) :
+    decode s.queue st.n c = 0 ↔ gs.view[c - 1]'(by omega) ∉ g.mbox := by
+  rw [decode_spec h hs hgs h1 h2, posOf_eq_zero_iff]
+
+/-- the whole decode table of a session is the expected one (`expectDecode`, the oracle the
+    differential driver compares the implementation against) -/
+theorem decode_table {st : St} {g : GSt} (h : Inv st g) {i : Nat} {s : Sess} {gs : GSess}
+    (hs : st.sess[i]? = some s) (hgs : g.sess[i]? = some gs) :
+    (List.range gs.view.length).map (fun j => decode s.queue st.n (j + 1)) = expectDecode g gs := by
+  apply List.ext_getElem
+  · simp [expectDecode]
+  · intro j hj1 hj2
+    simp only [List.length_map, List.length_range] at hj1
+    have := decode_spec h hs hgs (c := j + 1) (by omega) (by omega)
+    simpa [expectDecode] using this
+
+example : [1, 0] = expectDecode demoG ⟨1, [0, 1], [.exists_ [2, 3, 4], .expunge 1]⟩ :=
+  decode_table demo_inv (i := 0) rfl rfl
+
+/-! ## 4 — EncodeSeqNum -/
+
+/-- server number `k` is translated to the number under which the session's client knows the same
+    message, 0 when the client does not know it yet -/
+theorem encode_spec {st : St} {g : GSt} (h : Inv st g) {i : Nat} {s : Sess} {gs : GSess}
+    (hs : st.sess[i]? = some s) (hgs : g.sess[i]? = some gs) {k : Nat}
+    (h1 : 1 ≤ k) (h2 : k ≤ g.mbox.length) :
+    encode s.queue st.n k = posOf (g.mbox[k - 1]'(by omega)) gs.view := by
+  obtain ⟨_, hdel, hnd, _⟩ := h.sess.getElem? i hs hgs
+  rw [h.count]
+  exact encode_deliverAll hdel hnd h1 h2
+
+example : encode [.exists_ 2 5, .expunge 2] 4 2 = posOf 2 [0, 1] :=
+  encode_spec demo_inv (i := 0) rfl rfl (k := 2) (by decide) (by decide)
+example : encode [.expunge 2, .fetch 3, .expunge 1] 3 2 = posOf 3 [0, 1, 2, 3, 4] :=
+  encode_spec demo2_inv (i := 0) rfl rfl (k := 2) (by decide) (by decide)
+
+/-- the translation is 0 exactly when the client has not been told about the message -/
+theorem encode_eq_zero_iff {st : St} {g : GSt} (h : Inv st g) {i : Nat} {s : Sess} {gs : GSess}
+    (hs : st.sess[i]? = some s) (hgs : g.sess[i]? = some gs) {k : Nat}
+    (h1 : 1 ≤ k) (h2 : k ≤ g.mbox.length) :
+    encode s.queue st.n k = 0 ↔ g.mbox[k - 1]'(by omega) ∉ gs.view := by
+  rw [encode_spec h hs hgs h1 h2, posOf_eq_zero_iff]
+
+/-- the whole encode table of a session is the expected one (`expectEncode`) -/
+theorem encode_table {st : St} {g : GSt} (h : Inv st g) {i : Nat} {s : Sess} {gs : GSess}
+    (hs : st.sess[i]? = some s) (hgs : g.sess[i]? = some gs) :
+    (List.range g.mbox.length).map (fun j => encode s.queue st.n (j + 1)) = expectEncode g gs := by
+  apply List.ext_getElem
+  · simp [expectEncode]
+  · intro j hj1 hj2
+    simp only [List.length_map, List.length_range] at hj1
+    have := encode_spec h hs hgs (k := j + 1) (by omega) (by omega)
+    simpa [expectEncode] using this
+
+example : [1, 0, 0, 0] = expectEncode demoG ⟨1, [0, 1], [.exists_ [2, 3, 4], .expunge 1]⟩ :=
+  encode_table demo_inv (i := 0) rfl rfl
+
+/-! ## 5 — round trip -/
+
+/-- a client number that decodes to a live server number encodes back to itself -/
+theorem roundtrip {st : St} {g : GSt} (h : Inv st g) {i : Nat} {s : Sess} {gs : GSess}
+    (hs : st.sess[i]? = some s) (hgs : g.sess[i]? = some gs) {c k : Nat}
+    (h1 : 1 ≤ c) (h2 : c ≤ gs.view.length)
+    (hk : decode s.queue st.n c = k) (hk0 : k ≠ 0) : encode s.queue st.n k = c := by
+  obtain ⟨_, _, hnd, _⟩ := h.sess.getElem? i hs hgs
+  have hv : gs.view.Nodup := (List.nodup_append.mp hnd).1
+  rw [decode_spec h hs hgs h1 h2] at hk
+  obtain ⟨hk1, hk2, hget⟩ := getElem?_of_posOf hk hk0
+  rw [encode_spec h hs hgs hk1 hk2]
+  have : g.mbox[k - 1]'(by omega) = gs.view[c - 1]'(by omega) := by
+    rw [List.getElem?_eq_getElem (by omega)] at hget
+    exact Option.some.inj hget
+  rw [this]
+  exact posOf_getElem hv h1 h2
+
+example : encode [.exists_ 2 5, .expunge 2] 4 1 = 1 :=
+  roundtrip demo_inv (i := 0) rfl rfl (c := 1) (k := 1) (by decide) (by decide) (by decide) (by decide)
+
+/-- a server number that encodes to a number the client knows decodes back to itself -/
+theorem roundtrip_symm {st : St} {g : GSt} (h : Inv st g) {i : Nat} {s : Sess} {gs : GSess}
+    (hs : st.sess[i]? = some s) (hgs : g.sess[i]? = some gs) {c k : Nat}
+    (h1 : 1 ≤ k) (h2 : k ≤ g.mbox.length)
+    (hc : encode s.queue st.n k = c) (hc0 : c ≠ 0) : decode s.queue st.n c = k := by
+  rw [encode_spec h hs hgs h1 h2] at hc
+  obtain ⟨hc1, hc2, hget⟩ := getElem?_of_posOf hc hc0
+  rw [decode_spec h hs hgs hc1 hc2]
+  have : gs.view[c - 1]'(by omega) = g.mbox[k - 1]'(by omega) := by
+    rw [List.getElem?_eq_getElem (by omega)] at hget
+    exact Option.some.inj hget
+  rw [this]
+  exact posOf_getElem h.nodup h1 h2
+
+example : decode [.expunge 2, .fetch 3, .expunge 1] 3 4 = 2 :=
+  roundtrip_symm demo2_inv (i := 0) rfl rfl (c := 4) (k := 2) (by decide) (by decide) (by decide)
+    (by decide)
+
+/-! ## 6 — FETCH targets, NOOP synchronises -/
+
+/-- a delivered flag update names, in the view at delivery time, the identity it was queued for -/
+theorem fetch_target {v v' : List Id} {id : Id} {x : Upd}
+    (h : deliver v (.fetch id) = some (x, v')) :
+    ∃ p, x = .fetch p ∧ 1 ≤ p ∧ p ≤ v.length ∧ v[p - 1]? = some id ∧ v' = v := by
+  obtain ⟨hp, rfl, rfl⟩ := deliver_fetch h
+  obtain ⟨h1, h2, h3⟩ := getElem?_of_posOf rfl hp
+  exact ⟨_, rfl, h1, h2, h3, rfl⟩
+
+example : deliver [0, 2, 3, 4] (.fetch 3) = some (.fetch 3, [0, 2, 3, 4]) := rfl
+
+/-- the same for a flag update sitting anywhere in a session's queue: the concrete queue entry at
+    that place is a `.fetch p`, and `p` is the number of the queued identity in the view the client
+    has once the earlier entries have been delivered -/
+theorem fetch_target_queued {st : St} {g : GSt} (h : Inv st g) {i : Nat} {s : Sess} {gs : GSess}
+    (hs : st.sess[i]? = some s) (hgs : g.sess[i]? = some gs) {pre post : List GUpd} {id : Id}
+    (hsplit : gs.pending = pre ++ .fetch id :: post) :
+    ∃ qpre vmid p qpost, deliverAll gs.view pre = some (qpre, vmid) ∧
+      s.queue = qpre ++ .fetch p :: qpost ∧ qpre.length = pre.length ∧
+      1 ≤ p ∧ vmid[p - 1]? = some id := by
+  obtain ⟨_, hdel, _, _⟩ := h.sess.getElem? i hs hgs
+  rw [hsplit] at hdel
+  obtain ⟨q1, v1, q2, hd1, hd2, hq⟩ := deliverAll_append_some pre hdel
+  obtain ⟨x, v', xs, hdx, _, rfl⟩ := deliverAll_cons_some hd2
+  obtain ⟨p, rfl, hp1, _, hp3, _⟩ := fetch_target hdx
+  exact ⟨q1, v1, p, xs, hd1, hq, deliverAll_length pre hd1, hp1, hp3⟩
+
+example : ∃ qpre vmid p qpost, deliverAll [0, 1, 2, 3, 4] [.expunge 1] = some (qpre, vmid) ∧
+    [Upd.expunge 2, .fetch 3, .expunge 1] = qpre ++ .fetch p :: qpost ∧ qpre.length = 1 ∧
+    1 ≤ p ∧ vmid[p - 1]? = some 3 :=
+  fetch_target_queued demo2_inv (i := 0) (pre := [.expunge 1]) (post := [.expunge 0]) rfl rfl rfl
+
+/-- after a poll that may report everything (NOOP), the session's view is the mailbox and nothing
+    is pending -/
+theorem noop_sync {st : St} {g g' : GSt} (h : Inv st g) {id : Nat} {out : List Upd}
+    (hg : gstep g (.poll id true) = some (g', out)) :
+    g'.mbox = g.mbox ∧ ∀ gs' ∈ g'.sess, gs'.id = id → gs'.view = g'.mbox ∧ gs'.pending = [] := by
+  have hp : ∀ (s : Sess) (gs : GSess), SessInv g.mbox g.next s gs →
+      decide (s.id = id) = decide (gs.id = id) := by
+    intro s gs hs
+    have : s.id = gs.id := hs.1
+    rw [this]
+  rcases SessRel.find? hp h.sess with ⟨_, hfg⟩ | ⟨s, gs, _, hfg, hs⟩
+  · simp only [gstep, hfg, Option.some.injEq, Prod.mk.injEq] at hg
+    obtain ⟨rfl, rfl⟩ := hg
+    refine ⟨rfl, ?_⟩
+    intro gs' hmem hid
+    have := List.find?_eq_none.mp hfg gs' hmem
+    simp [hid] at this
+  · have hdel := hs.2.1
+    simp only [gstep, hfg, if_true, hdel, Option.some.injEq, Prod.mk.injEq] at hg
+    obtain ⟨rfl, rfl⟩ := hg
+    refine ⟨rfl, ?_⟩
+    intro gs' hmem hid
+    simp only [List.mem_map] at hmem
+    obtain ⟨x, _, rfl⟩ := hmem
+    by_cases hx : x.id = id
+    · simp [hx]
+    · rw [if_neg hx] at hid; exact absurd hid hx
+
+example : ∃ g' out, gstep demoG (.poll 1 true) = some (g', out) ∧
+    g'.sess.map (·.view) = [[0, 2, 3, 4]] ∧ out = [.exists_ 2 5, .expunge 2] :=
+  ⟨_, _, rfl, rfl, rfl⟩
+
+/-- and on the concrete side both translations are then the identity on `1..n` -/
+theorem noop_sync_identity (n c : Nat) (h1 : 1 ≤ c) (h2 : c ≤ n) :
+    decode [] n c = c ∧ encode [] n c = c := by
+  have h0 : c ≠ 0 := by omega
+  have h3 : ¬ c > n := by omega
+  simp [decode, encode, decLoop, encLoop, h0, h3]
+
+/-! ## 7 — the shipped EncodeSeqNum does not meet the specification -/
+
+/-- the statement of `encode_spec` is false for `Legacy.encode`: a reachable state in the invariant
+    (2 messages, one session, `QueueNumMessages 5`), server number 3 names an identity the client
+    does not know, yet the legacy translation answers 3 instead of 0 -/
+theorem legacy_encode_spec_counterexample :
+    ∃ (st : St) (g : GSt) (s : Sess) (gs : GSess) (k : Nat) (x : Id),
+      Inv st g ∧ st.sess[0]? = some s ∧ g.sess[0]? = some gs ∧ 1 ≤ k ∧ k ≤ g.mbox.length ∧
+      g.mbox[k - 1]? = some x ∧ posOf x gs.view = 0 ∧ Legacy.encode s.queue st.n k = 3 ∧
+      encode s.queue st.n k = 0 := by
+  have hg : grun (ginit 2) [.newSession 1, .numMessages 5] =
+      some (⟨[0, 1, 2, 3, 4], 5, [⟨1, [0, 1], [.exists_ [2, 3, 4]]⟩]⟩, [[], []]) := rfl
+  obtain ⟨st', h1, h2⟩ := inv_reachable 2 _ hg
+  have hr : run (init 2) [.newSession 1, .numMessages 5] =
+      some (⟨5, [⟨1, [.exists_ 2 5]⟩]⟩, [[], []]) := rfl
+  rw [hr] at h1
+  simp only [Option.some.injEq, Prod.mk.injEq, and_true] at h1
+  subst h1
+  exact ⟨_, _, ⟨1, [.exists_ 2 5]⟩, ⟨1, [0, 1], [.exists_ [2, 3, 4]]⟩, 3, 2, h2, rfl, rfl,
+    by decide, by decide, rfl, by decide, by decide, by decide⟩
+
+/-- hence the universally quantified statement of `encode_spec`, read for `Legacy.encode`, is false -/
+theorem legacy_encode_spec_false :
+    ¬ ∀ (st : St) (g : GSt) (i : Nat) (s : Sess) (gs : GSess) (k : Nat), Inv st g →
+        st.sess[i]? = some s → g.sess[i]? = some gs → (h1 : 1 ≤ k) → (h2 : k ≤ g.mbox.length) →
+        Legacy.encode s.queue st.n k = posOf (g.mbox[k - 1]'(by omega)) gs.view := by
+  intro hall
+  obtain ⟨st, g, s, gs, k, x, hinv, hs, hgs, h1, h2, hx, hp, hl, _⟩ :=
+    legacy_encode_spec_counterexample
+  have := hall st g 0 s gs k hinv hs hgs h1 h2
+  have hget : g.mbox[k - 1]'(by omega) = x := by
+    rw [List.getElem?_eq_getElem (by omega)] at hx; exact Option.some.inj hx
+  rw [hget, hp, hl] at this
+  cases this
 
 end GoImap.C07
